@@ -21,7 +21,16 @@ use typstyle_core::{Config, Typstyle};
 use tyv_model::report::{self, Coverage, Failure, Outcome};
 use tyv_model::syntax::esc;
 
-pub const CLI_BIN: &str = "/verif/target/cli/release/typstyle";
+const CLI_BIN_DEFAULT: &str = "/verif/target/cli/release/typstyle";
+
+/// The typstyle binary under test (built by ./check from /repo's working tree).
+pub fn cli_bin() -> String {
+    std::env::var("VERIF_CLI_BIN").unwrap_or_else(|_| CLI_BIN_DEFAULT.to_string())
+}
+
+fn repo_root() -> String {
+    std::env::var("VERIF_REPO").unwrap_or_else(|_| "/repo".to_string())
+}
 const SANDBOX_DISK: &str = "/verif/target/sandbox";
 const SANDBOX_SHM: &str = "/dev/shm/tyv-sandbox";
 
@@ -42,13 +51,15 @@ const T0: i64 = 1_000_000_000;
 // --------------------------------------------------------------------------------------- tree
 
 pub const SLOTS: [&str; 9] = ["a.typ", "b.typ", "sub/c.typ", "sub/deep/d.typ", ".h.typ", ".hid/e.typ", "sub/.hid/f.typ", "n.txt", "dir.typ/g.typ"];
-const LINK: &str = "l.typ"; // symlink -> a.typ
+const LINK: &str = "l.typ"; // symlink slot
+/// targets a symlink may point to: an eligible file, a file in a hidden directory, a wrong extension
+const LINK_TARGETS: [&str; 3] = ["a.typ", ".hid/e.typ", "n.txt"];
 
 #[derive(Clone, Debug, PartialEq, Eq, Hash, PartialOrd, Ord)]
 pub enum Entry {
     File(Vec<u8>),
-    /// symlink to a.typ (possibly dangling)
-    Link,
+    /// symlink to another slot of the tree (possibly dangling)
+    Link(String),
 }
 
 pub type Tree = BTreeMap<String, Entry>;
@@ -178,8 +189,8 @@ fn fmt(bytes: &[u8], style: Style) -> Option<Result<Vec<u8>, ()>> {
 fn resolve<'a>(tree: &'a Tree, path: &str) -> Option<(String, &'a Vec<u8>)> {
     match tree.get(path) {
         Some(Entry::File(b)) => Some((path.to_string(), b)),
-        Some(Entry::Link) => match tree.get("a.typ") {
-            Some(Entry::File(b)) => Some(("a.typ".to_string(), b)),
+        Some(Entry::Link(target)) => match tree.get(target) {
+            Some(Entry::File(b)) => Some((target.clone(), b)),
             _ => None,
         },
         None => None,
@@ -330,8 +341,8 @@ fn materialise(root: &Path, tree: &Tree) {
                 std::fs::write(&p, b).unwrap();
                 filetime::set_file_mtime(&p, FileTime::from_unix_time(T0, 0)).unwrap();
             }
-            Entry::Link => {
-                std::os::unix::fs::symlink("a.typ", &p).unwrap();
+            Entry::Link(target) => {
+                std::os::unix::fs::symlink(target, &p).unwrap();
             }
         }
     }
@@ -364,7 +375,7 @@ fn walk_files(root: &Path, dir: &Path, out: &mut Vec<String>) {
 pub fn execute(tree: &Tree, inv: &Invocation) -> Observed {
     let root = sandbox_dir().join("proj");
     materialise(&root, tree);
-    let mut cmd = Command::new(CLI_BIN);
+    let mut cmd = Command::new(cli_bin());
     cmd.args(inv.argv(&root)).current_dir(&root).env("NO_COLOR", "1").stdout(Stdio::piped()).stderr(Stdio::piped());
     let stdin_bytes = if let Mode::Stdin(b, _) = &inv.mode { Some(b.clone()) } else { None };
     cmd.stdin(if stdin_bytes.is_some() { Stdio::piped() } else { Stdio::null() });
@@ -384,7 +395,8 @@ pub fn execute(tree: &Tree, inv: &Invocation) -> Observed {
         let p = root.join(&f);
         let meta = std::fs::symlink_metadata(&p).unwrap();
         if meta.file_type().is_symlink() {
-            t.insert(f.clone(), Entry::Link);
+            let target = std::fs::read_link(&p).map(|t| t.display().to_string()).unwrap_or_default();
+            t.insert(f.clone(), Entry::Link(target));
             continue;
         }
         let bytes = std::fs::read(&p).unwrap_or_default();
@@ -430,7 +442,7 @@ pub fn compare(tree: &Tree, inv: &Invocation, exp: &Expected, obs: &Observed) ->
                     v.push((clause.to_string(), format!("{slot}: expected {} but found {}", esc(&String::from_utf8_lossy(want)), esc(&String::from_utf8_lossy(got)))));
                 }
             }
-            (Entry::Link, Some(Entry::Link)) => {}
+            (Entry::Link(a), Some(Entry::Link(b))) if a == b => {}
             (_, got) => v.push((
                 if check { "check-mode-modified-a-file" } else { "file-written-that-must-not-change" }.to_string(),
                 format!("{slot}: entry changed its type or vanished ({got:?})"),
@@ -581,7 +593,9 @@ impl Model for CliModel {
                 entries.push((s.to_string(), Entry::File(k.clone())));
             }
         }
-        entries.push((LINK.to_string(), Entry::Link));
+        for t in LINK_TARGETS {
+            entries.push((LINK.to_string(), Entry::Link(t.to_string())));
+        }
         let full = if self.thorough { 3 } else { 2 };
         let mut res: Vec<Tree> = vec![];
         fn rec(entries: &[(String, Entry)], start: usize, left: usize, cur: &mut Tree, res: &mut Vec<Tree>) {
@@ -751,7 +765,7 @@ fn kind_of(tree: &Tree, path: &str, style: Style) -> String {
             }
         },
     };
-    let link = if matches!(tree.get(path), Some(Entry::Link)) { "link:" } else { "" };
+    let link = if matches!(tree.get(path), Some(Entry::Link(_))) { "link:" } else { "" };
     format!("{link}{k}{}", if hiddenp { "(hidden)" } else { "" })
 }
 
@@ -769,7 +783,7 @@ fn show_tree(t: &Tree) -> String {
         .iter()
         .map(|(k, e)| match e {
             Entry::File(b) => format!("{k}={}", esc(&String::from_utf8_lossy(b))),
-            Entry::Link => format!("{k}->a.typ"),
+            Entry::Link(t) => format!("{k}->{t}"),
         })
         .collect();
     format!("{{{}}}", parts.join(", "))
@@ -783,7 +797,7 @@ fn tree_json(t: &Tree) -> Value {
                 k.clone(),
                 match e {
                     Entry::File(b) => json!({"bytes": b}),
-                    Entry::Link => json!({"link": "a.typ"}),
+                    Entry::Link(t) => json!({"link": t}),
                 },
             )
         })
@@ -794,8 +808,8 @@ fn tree_json(t: &Tree) -> Value {
 pub fn run_explore(property: &'static str, tier: &str, seed: u64) -> i32 {
     let start = Instant::now();
     let thorough = tier == "thorough";
-    if !Path::new(CLI_BIN).exists() {
-        eprintln!("MACHINERY: {CLI_BIN} missing (the check script builds it)");
+    if !Path::new(&cli_bin()).exists() {
+        eprintln!("MACHINERY: {} missing (the check script builds it)", cli_bin());
         return 2;
     }
     let cap = Duration::from_secs(std::env::var("VERIF_WALL_CAP_S").ok().and_then(|s| s.parse().ok()).unwrap_or(if thorough { 35 * 60 } else { 50 }));
@@ -906,8 +920,8 @@ pub fn run_explore(property: &'static str, tier: &str, seed: u64) -> i32 {
 fn tree_from_json(v: &Value) -> Option<Tree> {
     let mut t = Tree::new();
     for (k, e) in v.as_object()? {
-        if e.get("link").is_some() {
-            t.insert(k.clone(), Entry::Link);
+        if let Some(l) = e.get("link").and_then(|l| l.as_str()) {
+            t.insert(k.clone(), Entry::Link(l.to_string()));
         } else if let Some(s) = e.get("text").and_then(|x| x.as_str()) {
             t.insert(k.clone(), Entry::File(s.as_bytes().to_vec()));
         } else {
@@ -990,7 +1004,7 @@ fn corpus() -> Vec<(String, Vec<u8>)> {
             }
         }
     }
-    walk(Path::new("/repo/tests/fixtures/unit"), &mut fx);
+    walk(&Path::new(&repo_root()).join("tests/fixtures/unit"), &mut fx);
     fx.sort();
     for (i, p) in fx.iter().enumerate() {
         if i % 6 == 0 {
@@ -1017,8 +1031,8 @@ fn lib_format(bytes: &[u8], col: usize, tab: usize, reorder: bool) -> Vec<u8> {
 pub fn run_c16(tier: &str, seed: u64) -> i32 {
     let start = Instant::now();
     let thorough = tier == "thorough";
-    if !Path::new(CLI_BIN).exists() {
-        eprintln!("MACHINERY: {CLI_BIN} missing (the check script builds it)");
+    if !Path::new(&cli_bin()).exists() {
+        eprintln!("MACHINERY: {} missing (the check script builds it)", cli_bin());
         return 2;
     }
     let cap = Duration::from_secs(std::env::var("VERIF_WALL_CAP_S").ok().and_then(|s| s.parse().ok()).unwrap_or(if thorough { 35 * 60 } else { 50 }));
@@ -1088,7 +1102,7 @@ pub fn run_c16(tier: &str, seed: u64) -> i32 {
                         std::fs::write(root.join(n), b).unwrap();
                     }
                     // 1. stdout, the whole corpus as one multi-file invocation: concatenation in argument order
-                    let out = Command::new(CLI_BIN).args(&style).args(&names).current_dir(&root).env("NO_COLOR", "1").stdin(Stdio::null()).output().unwrap();
+                    let out = Command::new(cli_bin()).args(&style).args(&names).current_dir(&root).env("NO_COLOR", "1").stdin(Stdio::null()).output().unwrap();
                     runs.fetch_add(1, Ordering::Relaxed);
                     let want: Vec<u8> = expect.concat();
                     comparisons.fetch_add(corpus.len() as u64, Ordering::Relaxed);
@@ -1113,7 +1127,7 @@ pub fn run_c16(tier: &str, seed: u64) -> i32 {
                         if std::str::from_utf8(b).is_err() {
                             continue;
                         }
-                        let mut ch = Command::new(CLI_BIN).args(&style).current_dir(&root).env("NO_COLOR", "1").stdin(Stdio::piped()).stdout(Stdio::piped()).stderr(Stdio::null()).spawn().unwrap();
+                        let mut ch = Command::new(cli_bin()).args(&style).current_dir(&root).env("NO_COLOR", "1").stdin(Stdio::piped()).stdout(Stdio::piped()).stderr(Stdio::null()).spawn().unwrap();
                         {
                             use std::io::Write;
                             let mut si = ch.stdin.take().unwrap();
@@ -1132,7 +1146,7 @@ pub fn run_c16(tier: &str, seed: u64) -> i32 {
                         std::fs::write(root.join("all/nested").join(n), b).unwrap();
                     }
                     let inplace_names: Vec<String> = names.iter().map(|n| format!("all/{n}")).collect();
-                    let _ = Command::new(CLI_BIN).arg("-i").args(&style).args(&inplace_names).current_dir(&root).env("NO_COLOR", "1").stdin(Stdio::null()).output().unwrap();
+                    let _ = Command::new(cli_bin()).arg("-i").args(&style).args(&inplace_names).current_dir(&root).env("NO_COLOR", "1").stdin(Stdio::null()).output().unwrap();
                     runs.fetch_add(1, Ordering::Relaxed);
                     for (i, n) in names.iter().enumerate() {
                         comparisons.fetch_add(1, Ordering::Relaxed);
@@ -1142,7 +1156,7 @@ pub fn run_c16(tier: &str, seed: u64) -> i32 {
                         }
                     }
                     // 4. format-all on the nested copies
-                    let _ = Command::new(CLI_BIN).arg("format-all").args(&style).arg("all/nested").current_dir(&root).env("NO_COLOR", "1").stdin(Stdio::null()).output().unwrap();
+                    let _ = Command::new(cli_bin()).arg("format-all").args(&style).arg("all/nested").current_dir(&root).env("NO_COLOR", "1").stdin(Stdio::null()).output().unwrap();
                     runs.fetch_add(1, Ordering::Relaxed);
                     for (i, n) in names.iter().enumerate() {
                         comparisons.fetch_add(1, Ordering::Relaxed);
@@ -1212,4 +1226,70 @@ pub fn run_c16(tier: &str, seed: u64) -> i32 {
         wall_s: start.elapsed().as_secs_f64(),
     };
     report::finish(out, &|_| false)
+}
+
+/// `./check replay <file>` for C14 / C15: re-run the recorded (tree, invocation) against the real binary.
+pub fn replay(v: &Value, path: &str) -> i32 {
+    let property = v["property"].as_str().unwrap_or("C15").to_string();
+    let Some(tree) = tree_from_json(&v["extra"]["tree"]) else {
+        eprintln!("MACHINERY: replay file has no tree");
+        return 2;
+    };
+    let argv: Vec<String> = v["extra"]["argv"].as_array().map(|a| a.iter().filter_map(|x| x.as_str().map(|s| s.to_string())).collect()).unwrap_or_default();
+    // rebuild the invocation from its argv
+    let check = argv.iter().any(|a| a == "--check");
+    let style = if argv.windows(2).any(|w| w[0] == "-c" && w[1] == "0") {
+        Style::C0
+    } else if argv.windows(2).any(|w| w[0] == "-t" && w[1] == "4") {
+        Style::T4
+    } else if argv.iter().any(|a| a == "--reorder-import-items") {
+        Style::Reorder
+    } else {
+        Style::Default
+    };
+    let positional: Vec<String> = {
+        let mut out = vec![];
+        let mut skip = false;
+        for a in &argv {
+            if skip {
+                skip = false;
+                continue;
+            }
+            if a == "-c" || a == "-t" {
+                skip = true;
+                continue;
+            }
+            if a.starts_with('-') || a == "format-all" {
+                continue;
+            }
+            out.push(a.replace("<root>", "<abs>"));
+        }
+        out
+    };
+    let verbosity = if argv.iter().any(|a| a == "-q") { "-q" } else if argv.iter().any(|a| a == "-v") { "-v" } else { "" };
+    let mode = if argv.iter().any(|a| a == "format-all") {
+        Mode::FormatAll(positional.first().cloned(), check)
+    } else if let Some(s) = v["extra"]["stdin"].as_str() {
+        Mode::Stdin(s.as_bytes().to_vec(), check)
+    } else if check {
+        Mode::CheckFiles(positional)
+    } else {
+        Mode::Inplace(positional)
+    };
+    let inv = Invocation { mode, style, verbosity, check_first: argv.first().is_some_and(|a| a == "--check") && argv.iter().any(|a| a == "format-all") };
+    let exp = expected(&tree, &inv);
+    let obs = execute(&tree, &inv);
+    let diffs = compare(&tree, &inv, &exp, &obs);
+    println!("replay {property}: tree {} ; {}", show_tree(&tree), inv.show());
+    println!("observed exit {:?}, expected {}; files touched {:?}", obs.exit, exp.exit, obs.touched);
+    if diffs.is_empty() {
+        println!("PASS: the real binary agrees with the reference model");
+        0
+    } else {
+        for (c, d) in diffs {
+            println!("FAIL clause={c} :: {d}");
+        }
+        println!("VIOLATION property={property} replay={path}");
+        1
+    }
 }
